@@ -370,6 +370,42 @@ class Worker(object):
         return res
 
 
+_COV = {}
+
+
+def _coverage_start():
+    """VERIF_COVERAGE_DIR=<dir>: record which lines of the repository each shard executes (sys.monitoring, each location reported
+    once); tools/anchor_coverage.py merges the shard files and lists the lines of a property's anchor files no case reached"""
+    d = os.environ.get("VERIF_COVERAGE_DIR")
+    if not d or not hasattr(sys, "monitoring"):
+        return
+    from . import compat
+    repo = compat.REPO.rstrip("/") + "/"
+    mon = sys.monitoring
+    tool = mon.COVERAGE_ID
+    try:
+        mon.use_tool_id(tool, "verif-coverage")
+    except ValueError:
+        return
+
+    def on_line(code, line):
+        fn = code.co_filename
+        if fn.startswith(repo):
+            _COV.setdefault(fn[len(repo):], set()).add(line)
+        return mon.DISABLE
+    mon.register_callback(tool, mon.events.LINE, on_line)
+    mon.set_events(tool, mon.events.LINE)
+
+
+def _coverage_dump(shard):
+    d = os.environ.get("VERIF_COVERAGE_DIR")
+    if not d or not _COV:
+        return
+    os.makedirs(d, exist_ok=True)
+    with open(os.path.join(d, "shard-%d-%d.json" % (shard, os.getpid())), "w") as f:
+        json.dump({k: sorted(v) for k, v in _COV.items()}, f)
+
+
 def _worker_main(conn, modname, tier, seed, shard, nshards, open_keys, findings):
     # keep stdout for the parent's contract lines
     try:
@@ -380,10 +416,12 @@ def _worker_main(conn, modname, tier, seed, shard, nshards, open_keys, findings)
     try:
         import warnings
         warnings.filterwarnings("ignore", module="hypothesis")
+        _coverage_start()
         mod = importlib.import_module(modname)
         plan = mod.plan(tier)
         w = Worker(mod, tier, seed, shard, nshards, plan, set(open_keys))
         res = w.run(findings)
+        _coverage_dump(shard)
         conn.send(("ok", res))
     except HarnessError as e:
         conn.send(("harness", str(e)))
